@@ -278,68 +278,7 @@ theorem C10_balance (p : People) (inv : Inv p) :
     (∀ us, OpOk p (.requestDeath us) → aliveCount (step p (.requestDeath us)) = aliveCount p) ∧
     aliveCount (step p .updateResults) = aliveCount p ∧
     aliveCount (step p .removeDead) = aliveCount p ∧
-    aliveCount (step p .finishStep) = aliveCount p := by
-  refine ⟨?_, ?_, ?_, rfl, ?_, ?_⟩
-  · intro k s hok
-    obtain ⟨p', h, _, _, hau, _, _, _, hold, hnew, _⟩ := grow_step p k s inv hok
-    have e : step p (.grow k s) = p' := by simp [step, stepE, h]
-    rw [e, aliveCount_eq, aliveCount_eq, hau, List.filter_append, List.length_append]
-    congr 1
-    · congr 1
-      apply List.filter_congr
-      intro u hu; rw [(hold u (inv.active u hu)).1]
-    · by_cases hk : k = 0
-      · simp [hk]
-      · simp only [hk, ↓reduceIte]
-        rw [List.filter_eq_self.mpr]
-        · simp
-        · intro u hu
-          have := (mem_newIds p.n k u).mp hu
-          rw [(hnew u this.1 this.2).1]; rfl
-  · obtain ⟨p', h, _, _, hau, _, _, _, _, _, hal⟩ := stepDie_step p inv
-    have e : step p .stepDie = p' := by simp [step, stepE, h]
-    rw [e, aliveCount_eq, aliveCount_eq, hau, diedNow]
-    have h1 : p.auids.filter (fun u => (p'.alive.cell u).truthy) =
-        p.auids.filter (fun u => !(cmpVal .le (p.tiDead.cell u) (tiVal p.ti)).truthy && (p.alive.cell u).truthy) := by
-      apply List.filter_congr
-      intro u hu
-      rw [hal u]
-      have hin : inRange p.tiDead p.auids = true := by
-        simp only [inRange, List.all_eq_true, decide_eq_true_eq]
-        intro x hx; have := inv.active x hx; have := inv.tiDead.le; omega
-      have hm : u ∈ deathUids p ↔ (cmpVal .le (p.tiDead.cell u) (tiVal p.ti)).truthy = true := by
-        simp only [deathUids, C11.C11_compare_true p.auids p.tiDead .le (tiVal p.ti) inv.nodup hin, List.mem_filter, hu, true_and]
-      by_cases hq : (cmpVal .le (p.tiDead.cell u) (tiVal p.ti)).truthy = true
-      · have hd := hm.mpr hq
-        simp only [hd, ↓reduceIte, hq, Bool.not_true, Bool.false_and]
-        rfl
-      · have : u ∉ deathUids p := fun hh => hq (hm.mp hh)
-        simp [this, hq]
-    have hin : inRange p.tiDead p.auids = true := by
-      simp only [inRange, List.all_eq_true, decide_eq_true_eq]
-      intro x hx; have := inv.active x hx; have := inv.tiDead.le; omega
-    have h2 : (deathUids p).filter (fun u => (p.alive.cell u).truthy) =
-        p.auids.filter (fun u => (cmpVal .le (p.tiDead.cell u) (tiVal p.ti)).truthy && (p.alive.cell u).truthy) := by
-      simp only [deathUids, C11.C11_compare_true p.auids p.tiDead .le (tiVal p.ti) inv.nodup hin, List.filter_filter]
-      apply List.filter_congr; intro u _; exact Bool.and_comm _ _
-    rw [h1, h2]
-    exact filter_split_length p.auids _ _
-  · intro us hok
-    obtain ⟨p', h, _, _, hau, hal, _⟩ := request_step p us inv hok
-    have e : step p (.requestDeath us) = p' := by simp [step, stepE, h]
-    rw [e, aliveCount, aliveCount, hau, hal]
-  · obtain ⟨p', h, _, _, hau, hal, _⟩ := removeDead_step p inv
-    have e : step p .removeDead = p' := by simp [step, stepE, h]
-    rw [e, aliveCount_eq, aliveCount_eq, hau, hal, List.filter_filter]
-    simp
-  · obtain ⟨p', h, _, _, hau, hal, _⟩ := removeDead_step p inv
-    have hs : stepE p .finishStep = .ok { p' with ti := p'.ti + 1 } := by simp [stepE, finishStep, h, bind, Except.bind, pure, Except.pure]
-    simp only [step, hs]
-    show count p'.auids p'.alive = _
-    have := aliveCount_eq p'
-    simp only [aliveCount] at this
-    rw [this, aliveCount_eq, hau, hal, List.filter_filter]
-    simp
+    aliveCount (step p .finishStep) = aliveCount p := balance_ops p inv
 
 /-- **Flow (counterexample, kernel-checked).** Two agents.  Step 0: death resolution, results, then agent 1's death is
     requested (as `Pregnancy.finish_step` does), `finish_step`.  Step 1: `step_die` kills agent 1 (`n_alive` 2 → 1) but
@@ -504,6 +443,151 @@ example :
     (init 3 [fresh .float .nan (.const (.num 1))]).toOption.map
       (fun p => (p.n, p.auids, (run p [.requestDeath [2], .stepDie, .updateResults, .finishStep]).auids, p.states.map (·.lenUsed))) =
     some (3, [0, 1, 2], [0, 1], [3]) := by
+  decide
+
+/-! ### Whole steps of the simulation loop (round 3) -/
+
+/-- **A whole step of the loop resolves every death requested before death resolution.**  Whatever the modules do before
+    (`pre`) and after (`post`) death resolution — creating agents, requesting deaths, in any number and order — an active
+    agent named in a request of `pre` is dead after the step, is no longer active, stays so, and the clock has advanced by one. -/
+theorem C10_step_resolves (p : People) (inv : Inv p) (pre post : List Op)
+    (hpre : ∀ op ∈ pre, IsModuleOp op = true) (hpost : ∀ op ∈ post, IsModuleOp op = true)
+    (hv : ValidRun p (stepOps pre post)) (us : List Nat) (hreq : .requestDeath us ∈ pre) (u : Nat) (hu : u ∈ us) (hact : u ∈ p.auids) :
+    (run p (stepOps pre post)).alive.cell u = .bool false ∧ u ∉ (run p (stepOps pre post)).auids ∧
+    (run p (stepOps pre post)).ti = p.ti + 1 ∧ Inv (run p (stepOps pre post)) := by
+  simp only [stepOps, List.append_assoc] at hv ⊢
+  rw [validRun_append] at hv
+  obtain ⟨hv1, hv2⟩ := hv
+  obtain ⟨i1, t1, _, n1, m1, _, _, r1, _⟩ := moduleOps_run pre p inv hpre hv1
+  rw [run_append]
+  generalize run p pre = q1 at *
+  -- death resolution
+  obtain ⟨q2, h2, i2, n2, au2, td2, ti2, _, _, _, al2⟩ := stepDie_step q1 i1
+  have hdead : q2.alive.cell u = .bool false := by
+    rw [al2 u]; simp [stamped_dies q1 i1 u (m1 u hact) (r1 us hreq u hu)]
+  have e2 : step q1 .stepDie = q2 := by simp [step, stepE, h2]
+  -- results
+  have i3 : Inv (updateResults q2) := { i2 with }
+  have hv3 : ValidRun (updateResults q2) (post ++ [.finishStep]) := by
+    have := hv2
+    simp only [List.cons_append, List.nil_append, ValidRun, e2] at this
+    exact this.2.2
+  rw [validRun_append] at hv3
+  obtain ⟨i4, t4, _, n4, _, _, d4, _, _⟩ := moduleOps_run post (updateResults q2) i3 hpost hv3.1
+  have e : run q1 ([.stepDie, .updateResults] ++ (post ++ [.finishStep])) = step (run (updateResults q2) post) .finishStep := by
+    simp only [List.cons_append, List.nil_append, run, List.foldl_cons, List.foldl_append, List.foldl_nil]
+    rw [e2]; rfl
+  rw [e]
+  generalize run (updateResults q2) post = q4 at *
+  have hlt : u < q2.n := by rw [n2]; exact i1.active u (m1 u hact)
+  have hd4 : q4.alive.cell u = .bool false := d4 u hlt hdead
+  obtain ⟨q5, h5, i5, _, au5, al5, _, ti5, _⟩ := removeDead_step q4 i4
+  have hs : stepE q4 .finishStep = .ok { q5 with ti := q5.ti + 1 } := by simp [stepE, finishStep, h5, bind, Except.bind, pure, Except.pure]
+  simp only [step, hs]
+  refine ⟨by show q5.alive.cell u = _; rw [al5]; exact hd4, ?_, ?_, { i5 with }⟩
+  · show u ∉ q5.auids
+    rw [au5, List.mem_filter]; simp [hd4, Val.truthy]
+  · show q5.ti + 1 = p.ti + 1
+    rw [ti5, t4]; show q2.ti + 1 = _; rw [ti2, t1]
+
+/-- **Balance over a whole step.**  The number recorded in `n_alive[t]` during the step, `c`, is the number alive before
+    the step plus the agents the modules created before death resolution minus the agents death resolution killed; and
+    the next step starts from `c` plus the agents created after death resolution (nobody else appears or disappears). -/
+theorem C10_step_balance (p : People) (inv : Inv p) (pre post : List Op)
+    (hpre : ∀ op ∈ pre, IsModuleOp op = true) (hpost : ∀ op ∈ post, IsModuleOp op = true)
+    (hv : ValidRun p (stepOps pre post)) :
+    ∃ c, (p.ti, c) ∈ (run p (stepOps pre post)).nAlive ∧ c + diedNow (run p pre) = aliveCount p + created pre ∧
+      aliveCount (run p (stepOps pre post)) = c + created post := by
+  simp only [stepOps, List.append_assoc] at hv ⊢
+  rw [validRun_append] at hv
+  obtain ⟨hv1, hv2⟩ := hv
+  obtain ⟨i1, t1, _, _, _, _, _, _, c1⟩ := moduleOps_run pre p inv hpre hv1
+  rw [run_append]
+  generalize run p pre = q1 at *
+  obtain ⟨q2, h2, i2, _, _, _, ti2, _, _, _, _⟩ := stepDie_step q1 i1
+  have e2 : step q1 .stepDie = q2 := by simp [step, stepE, h2]
+  have hb := (C10_balance q1 i1).2.1
+  rw [e2] at hb
+  have i3 : Inv (updateResults q2) := { i2 with }
+  have hv3 : ValidRun (updateResults q2) (post ++ [.finishStep]) := by
+    have := hv2
+    simp only [List.cons_append, List.nil_append, ValidRun, e2] at this
+    exact this.2.2
+  rw [validRun_append] at hv3
+  obtain ⟨i4, _, a4, _, _, _, _, _, c4⟩ := moduleOps_run post (updateResults q2) i3 hpost hv3.1
+  have e : run q1 ([.stepDie, .updateResults] ++ (post ++ [.finishStep])) = step (run (updateResults q2) post) .finishStep := by
+    simp only [List.cons_append, List.nil_append, run, List.foldl_cons, List.foldl_append, List.foldl_nil]
+    rw [e2]; rfl
+  rw [e]
+  have hfin := (C10_balance (run (updateResults q2) post) i4).2.2.2.2.2
+  generalize run (updateResults q2) post = q4 at *
+  obtain ⟨q5, h5, _, _, _, _, _, _, na5, _⟩ := removeDead_step q4 i4
+  have hs : stepE q4 .finishStep = .ok { q5 with ti := q5.ti + 1 } := by simp [stepE, finishStep, h5, bind, Except.bind, pure, Except.pure]
+  refine ⟨aliveCount q2, ?_, by rw [← c1]; exact hb, ?_⟩
+  · simp only [step, hs]
+    show (p.ti, aliveCount q2) ∈ q5.nAlive
+    rw [na5, a4]
+    simp only [updateResults, List.mem_append, List.mem_singleton]
+    right; rw [ti2, t1]; rfl
+  · rw [hfin, c4]; rfl
+
+
+/-! ### The loop plan (regenerated from `Loop.collect_funcs`) has this shape for every module set -/
+
+/-- The regenerated plan is: module code, `people.step_die`, `people.update_results`, module code, `people.finish_step`
+    and at once `sim.finish_step`; the People phases carry no guard (they are scheduled whatever modules the sim has); no
+    other row touches `sim.people` or ticks the clock; and the `step` of every kind of module that may create agents or
+    request deaths as part of the dynamics (demographics, diseases, connectors, networks, interventions) is scheduled
+    before death resolution and never after it. -/
+theorem C10_plan_shape :
+    Gen.planRows = preRows Gen.planRows ++ [("sim.people", "step_die", ""), ("sim.people", "update_results", "")] ++
+      postRows Gen.planRows ++ [("sim.people", "finish_step", ""), ("sim", "finish_step", "")] ∧
+    (∀ r ∈ preRows Gen.planRows ++ postRows Gen.planRows, r.1 ≠ "sim.people" ∧ ¬ (r.1 = "sim" ∧ r.2.1 = "finish_step")) ∧
+    (∀ c ∈ ["sim.demographics()", "sim.diseases()", "sim.connectors()", "sim.networks()", "sim.interventions()"],
+      (preRows Gen.planRows).any (isRow c "step") = true ∧ (postRows Gen.planRows).any (fun r => r.1 == c) = false) := by
+  decide
+
+/-- **Every sim runs the death-resolution machinery, once per step, in the same place.**  For every valuation `g` of the
+    guards (= every module set) and whatever the module code does (`acts`), one pass through the scheduled rows of the
+    regenerated plan issues exactly `stepOps pre post`: the module operations of the rows before death resolution,
+    `step_die`, `update_results`, the module operations of the rows after it, `finish_step` (+ clock tick) — and `pre`,
+    `post` consist of module operations only, so `C10_step_resolves` and `C10_step_balance` apply to every step of every sim. -/
+theorem C10_plan_every_module_set (g : String → Bool) (acts : String → String → List Op)
+    (hacts : ∀ c m, ∀ op ∈ acts c m, IsModuleOp op = true) :
+    planOps acts (scheduled g Gen.planRows) =
+      stepOps (planOps acts (scheduled g (preRows Gen.planRows))) (planOps acts (scheduled g (postRows Gen.planRows))) ∧
+    (∀ op ∈ planOps acts (scheduled g (preRows Gen.planRows)), IsModuleOp op = true) ∧
+    (∀ op ∈ planOps acts (scheduled g (postRows Gen.planRows)), IsModuleOp op = true) := by
+  obtain ⟨hshape, hmod, _⟩ := C10_plan_shape
+  refine ⟨?_, ?_, ?_⟩
+  · conv => lhs; rw [hshape]
+    simp [scheduled, List.filter_append, planOps, List.flatMap_append, stepOps, slotOf]
+  · exact planOps_modules acts hacts _ (fun r hr => (hmod r (List.mem_append_left _ (scheduled_sub g _ r hr))).1)
+  · exact planOps_modules acts hacts _ (fun r hr => (hmod r (List.mem_append_right _ (scheduled_sub g _ r hr))).1)
+
+
+/-- Outside class `People` nothing in starsim writes the population's life status (`people.ti_dead`, `people.alive`):
+    modules ask through `People.request_death`, which stamps the SIM's clock (not the clock of the asking module), and
+    `People.finish_step` removes the dead. -/
+theorem C10_life_status_single_writer :
+    Gen.lifeStatusWritesOutsidePeople = [] ∧ Gen.requestDeathWrite = ("self.ti_dead[uids]", "self.sim.ti") ∧
+    "self.remove_dead" ∈ Gen.peopleFinishCalls := by decide
+
+/-- non-vacuity (kernel-checked): the regenerated plan with a module set whose guards are all false and one whose guards
+    are all true, an intervention that requests agents 1 and 3 and a demographics module that creates two agents: the
+    requested agents are gone after the step, the books balance (4 + 2 - 2) -/
+example :
+    let acts : String → String → List Op := fun c m =>
+      if c = "sim.interventions()" ∧ m = "step" then [.requestDeath [1, 3]] else if c = "sim.demographics()" ∧ m = "step" then [.grow 2 none] else []
+    let p0 := run (emptyPeople []) [.grow 4 none]
+    let ok : (String → Bool) → Bool := fun g =>
+      planOps acts (scheduled g Gen.planRows) = [.grow 2 none, .requestDeath [1, 3], .stepDie, .updateResults, .finishStep] ∧
+      (run p0 (planOps acts (scheduled g Gen.planRows))).auids = [0, 2, 4, 5] ∧
+      (run p0 (planOps acts (scheduled g Gen.planRows))).nAlive = [(0, 4)] ∧
+      (run p0 (planOps acts (scheduled g Gen.planRows))).newDeaths = [(0, 2)] ∧
+      (run p0 (planOps acts (scheduled g Gen.planRows))).ti = 1
+    ok (fun _ => false) = true ∧ ok (fun _ => true) = true ∧
+    ValidRun p0 (stepOps [.grow 2 none, .requestDeath [1, 3]] []) := by
   decide
 
 
